@@ -34,6 +34,7 @@ from .nodes import (
     Node,
     NodeState,
     TransientIdentity,
+    TransientNode,
     Value,
     Var,
     VarValue,
@@ -538,6 +539,11 @@ class GraphBuilder:
                     pass
 
         for node in nodes:
+            if isinstance(node, TransientNode):
+                # a transient node holds no value that could be converted. reading
+                # its value would evaluate it, maybe before its inputs are computed
+                continue
+
             try:
                 wrappers = jax.tree.map(ConversionWrapper, node.value)
 
